@@ -340,7 +340,7 @@ func c17Doc(r *rand.Rand, depth int, leaves *[]shLeaf) *ref.V {
 		if r.IntN(2) == 0 {
 			k = c17Str(r)
 		} else {
-			k = []string{"a", "b", "key", "x1", "9lives", "with space", "dash-ed", "dot.ted", "é", "_u", "A"}[r.IntN(11)]
+			k = []string{"a", "b", "key", "x1", "9lives", "with space", "dash-ed", "dot.ted", "é", "_u", "A", "port\u0663", "\u096bx", "n\u0e52", "\uff11a"}[r.IntN(15)]
 		}
 		if _, dup := m.Get(k); dup {
 			continue
@@ -446,11 +446,22 @@ func (p c17) runShellVars(w *mon.Worker, r *rand.Rand, dir string, traced bool) 
 			}
 		}
 	}
-	res.Case = map[string]any{"doc": text}
+	shExpr := "."
+	if r.IntN(3) == 0 {
+		// the document sits one level down and is SELECTED by the expression: names are formed from the selected node on
+		if body := strings.TrimSuffix(text, "\n"); strings.Contains(body, "\n") {
+			text = "wrap:\n  " + strings.ReplaceAll(body, "\n", "\n  ") + "\nother: 1\n"
+		} else {
+			text = "wrap: " + body + "\nother: 1\n"
+		}
+		shExpr = ".wrap"
+		res.Tags = append(res.Tags, "selected_inner_node")
+	}
+	res.Case = map[string]any{"doc": text, "expr": shExpr}
 	res.Sig = fmt.Sprintf("shell|%x", hashStr(text))
 	docf := filepath.Join(dir, "in.yaml")
 	_ = os.WriteFile(docf, []byte(text), 0o644)
-	br := mon.Run(mon.RunOpts{Dir: dir}, w.YqBin(), "-o=shell", ".", docf)
+	br := mon.Run(mon.RunOpts{Dir: dir}, w.YqBin(), "-o=shell", shExpr, docf)
 	res.Evals++
 	if br.TimedOut {
 		res.Verdict, res.Detail = mon.Inconclusive, "binary timed out"
@@ -463,7 +474,7 @@ func (p c17) runShellVars(w *mon.Worker, r *rand.Rand, dir string, traced bool) 
 	}
 	out := string(br.Stdout)
 	// in-process encoder must print the same bytes
-	if lib, err, pan := yqx.Eval(".", text, "yaml", "shell"); err != nil || pan != nil || lib != out {
+	if lib, err, pan := yqx.Eval(shExpr, text, "yaml", "shell"); err != nil || pan != nil || lib != out {
 		res.Verdict = mon.Violated
 		res.Detail = fmt.Sprintf("binary and library disagree on -o=shell: %q vs %q (err=%v)", clipStr(out, 300), clipStr(lib, 300), err)
 		return res
